@@ -11,13 +11,21 @@
    whose expiration is within [block time, block time + lifetime], i.e. of its own epoch.  `now` is the epoch of the
    latest block time the node has seen: the pool is always asked for the transactions that are pending at that
    time (TxPool.GetTxs(now) drops what is expired), so transactions of an earlier epoch are gone for good once a
-   block of a later epoch arrived, and the clause is about the live ones:
+   block of a later epoch arrived, and the clause is about the live ones.  After every InsertBlock / InsertConfirms:
 
-        after every InsertBlock / InsertConfirms:   pool = (seen \cap Live(now)) \ OnChain(head)
+        UPPER  pool \subseteq (seen \cap Live(now)) \ OnChain(head)          ("none that are" on the new fork, nothing
+                                                                             expired, nothing the node was never given)
+        LOWER  every transaction that was pending before the step or lies in a block of the OLD head's branch back
+               to the common ancestor with the new head (the abandoned fork) is pending afterwards, unless it is
+               on the new head's chain or expired                           ("contains the abandoned fork's
+                                                                             transactions", loses no pending one)
 
    where seen = the transactions the node has ever been given: those submitted to its pool before the run (any
    member of Pend: most transactions of other miners' blocks have never been in our pool) and those of every block
-   it stored - a side fork's or an abandoned fork's transactions are pending even if they were never submitted here.
+   it stored.  A transaction the node only knows from a side block that was never on its head's branch and that was
+   never in its pool may or may not be pending - the clause does not speak about it (the code makes it pending when
+   the side block leaves the head where it is, and not when the block makes the node switch to another stored
+   leaf: an inconsistency of saveNewBlock, not a violation).
 
    STABLE.  ND deputies, a block is stable with Q = ceil(2 ND / 3) signers, the miner included; the node is an
    observer and never signs.  A block may arrive carrying enough confirms (c = 1: it becomes stable inside the same
@@ -36,7 +44,16 @@
    branches (they descend from the old stable block) are still cached.  PruneFirst = TRUE is the negative control:
    pruning first loses the pool update of a fork switch that comes with a stable change across epochs.
 
-   The transactions that are pending when the run starts are one of the sets in Pend. *)
+   The transactions that are pending when the run starts are one of the sets in Pend.
+
+   INDIRECT SWITCHES.  The block the node is given is not always the block it switches to: UpdateFork re-evaluates
+   ALL stored leaves whenever a block arrives that does not extend the head, and the eligibility of a leaf depends
+   on its distance to the STABLE block - a higher leaf that was stored while its distance was not a multiple of Q
+   becomes eligible when the stable block moves under it (InsertConfirms does not re-evaluate), and the next block
+   that arrives on any other fork makes the node switch to it.  The pool must then be updated with the branches of
+   (old head, NEW HEAD), not (old head, delivered block): the delivered block is on neither of them, its
+   transactions that were pending stay pending.  ind (history) counts these steps: head' \notin {head, delivered
+   block}; the check selects behaviours by it and requires that they occur on the real node. *)
 EXTENDS Naturals, FiniteSets, TLC
 CONSTANTS NB, ND, NE, Tx, TxEp, Pend, PruneFirst
 Block == 1..NB
@@ -46,8 +63,9 @@ Epoch == 0..(NE - 1)
 VARIABLES parent, txs, ep, txep,        \* the universe (txep = TxEp: the transactions and their epochs, for the binding)
           known, conf, stable, head,    \* the node's store: stable chain + unconfirmed tree
           cache, now, pool,
-          seen                          \* history: every transaction submitted or stored in a block so far
-vars == <<parent, txs, ep, txep, known, conf, stable, head, cache, now, pool, seen>>
+          seen,                         \* history: every transaction submitted or stored in a block so far
+          ind                           \* history: head changes so far to a block that is not the one just delivered
+vars == <<parent, txs, ep, txep, known, conf, stable, head, cache, now, pool, seen, ind>>
 RECURSIVE Anc(_)
 Anc(b) == IF b = G THEN {G} ELSE {b} \cup Anc(parent[b])
 H(b) == Cardinality(Anc(b)) - 1
@@ -62,12 +80,16 @@ NoReplay(p, t) == \A b \in Block : LET RECURSIVE A(_)
 EpOK(p, e) == \A b \in Block : e[b] >= (IF p[b] = G THEN 0 ELSE e[p[b]])    \* time never runs backwards on a branch
 TxsOK(p, e, t) == /\ \A b \in Block : \A x \in t[b] : TxEp[x] = e[b]       \* expiration within the carrying block's lifetime window
                   /\ NoReplay(p, t)
-Init == /\ parent \in {f \in [Block -> Block \cup {G}] : \A b \in Block : f[b] < b}
+Trees == {f \in [Block -> Block \cup {G}] : \A b \in Block : f[b] < b}
+\* the universe is a tree of Shapes (all of Trees unless a configuration focuses on a family)
+InitIn(Shapes) ==
+        /\ parent \in Shapes
         /\ ep \in {e \in [Block -> Epoch] : EpOK(parent, e)}
         /\ txs \in {t \in [Block -> {s \in SUBSET Tx : Cardinality(s) <= 1}] : TxsOK(parent, ep, t)}
         /\ txep = TxEp
         /\ known = {G} /\ conf = {} /\ stable = G /\ head = G
-        /\ cache = {G} /\ now = 0 /\ pool \in Pend /\ seen = pool
+        /\ cache = {G} /\ now = 0 /\ pool \in Pend /\ seen = pool /\ ind = 0
+Init == InitIn(Trees)
 \* ---- store.ChainDatabase.SetStableBlock, ForkManager (as in Consensus.tla) ----
 Unconf(kn, st) == {b \in kn : st \in Anc(b) /\ b # st}
 Prune(kn, st) == {b \in kn : b \in Anc(st) \/ st \in Anc(b)}
@@ -104,6 +126,7 @@ InsertBlock(b, c) ==
      IN /\ conf' = IF c = 1 THEN conf \cup {b} ELSE conf
         /\ stable' = st2 /\ known' = kn2 /\ head' = hd2 /\ cache' = ca2 /\ now' = nw2
         /\ pool' = p2 \cap Live(nw2) /\ seen' = seen \cup txs[b]
+        /\ ind' = IF hd2 \notin {head, b} THEN ind + 1 ELSE ind
   /\ UNCHANGED <<parent, txs, ep, txep>>
 \* a confirm packet that completes the quorum of a stored block above the stable one
 InsertConfirms(b) ==
@@ -116,12 +139,15 @@ InsertConfirms(b) ==
          p2 == IF hd2 # head THEN Changed(head, hd2, cas, pool) ELSE pool
      IN /\ conf' = conf \cup {b} /\ stable' = b /\ known' = kn2 /\ head' = hd2 /\ cache' = ca2
         /\ pool' = p2 \cap Live(now)
-  /\ UNCHANGED <<parent, txs, ep, txep, now, seen>>
+  /\ UNCHANGED <<parent, txs, ep, txep, now, seen, ind>>
 Next == \/ \E b \in Block, c \in {0, 1} : InsertBlock(b, c)
         \/ \E b \in Block : InsertConfirms(b)
 Spec == Init /\ [][Next]_vars
-\* the clause, as a state invariant
-PoolIsOffChain == pool = (seen \cap Live(now)) \ OnChain(head)
+\* the clause: UPPER as a state invariant, LOWER as a property of every step
+PoolUpper == pool \subseteq (seen \cap Live(now)) \ OnChain(head)
+Abandoned(old, new) == TxsOf(Anc(old) \ Anc(new))
+PoolLowerStep == ((pool \cup Abandoned(head, head')) \cap Live(now')) \ OnChain(head') \subseteq pool'
+PoolLower == [][PoolLowerStep]_vars
 HeadOK == head \in known /\ stable \in Anc(head) /\ \A b \in known : b \in Anc(stable) \/ stable \in Anc(b)
 \* the branches of any possible fork switch are cached (why pruning after the switch is safe)
 UnconfCached == Unconf(known, stable) \subseteq cache
